@@ -8,9 +8,49 @@ def keep(line):
     return not line.startswith('ledger')
 
 
+def superset_at_the_wrap(spec, impl, case_text):
+    """Used only when the refinement proof no longer checks and the snapshot SPECIFICATION has become the oracle of the search
+    for a failing input.  The specification skips every callback added during an invocation; the property allows an
+    invocation that is in progress when the counter wraps to call such callbacks as well.  So against the specification
+    an implementation trace is accepted when, invocation by invocation (calls carry the invocation's argument), it
+    contains the specification's calls in order, and every additional call is of a callback that some callback of the
+    case adds (i.e. one added during an invocation), at most once per invocation; all other trace lines are equal."""
+    import re
+    def split(tr):
+        calls, rest = {}, []
+        for l in tr:
+            w = l.split()
+            if len(w) == 3 and w[0] == 'call':
+                calls.setdefault(w[2], []).append(w[1])
+            else:
+                rest.append(l)
+        return calls, rest
+    sc, sr = split(spec)
+    ic, ir = split(impl)
+    if sr != ir or set(sc) - set(ic):
+        return False
+    added = set()
+    for line in case_text.split('\n'):
+        if line.startswith('cb '):
+            for m in re.finditer(r'\b(?:append|prepend|insert)\s+\d+\s+(\d+)', line):
+                added.add(m.group(1))
+    for arg, got in ic.items():
+        want = sc.get(arg, [])
+        k, extras = 0, []
+        for c in got:
+            if k < len(want) and c == want[k]:
+                k += 1
+            else:
+                extras.append(c)
+        if k != len(want) or len(set(extras)) != len(extras) or any(c not in added for c in extras):
+            return False
+    return True
+
+
 def run(ctx):
     cc.run(ctx, FILES, ['wrap'], n_quick=2000, n_thorough=100000, keep=keep,
-           variants_quick=('multi_functor', 'single_stdfunction'), what='CallbackList across the counter wrap')
+           variants_quick=('multi_functor', 'single_stdfunction'), what='CallbackList across the counter wrap',
+           spec_equiv=superset_at_the_wrap)
 
 
 def replay(ctx, path):
